@@ -13,6 +13,14 @@ Rec == ndJsonDeserialize(IOEnv.TRACE)
 
 Has(r, f) == f \in DOMAIN r
 
+\* A genuine defect that is recorded rather than repaired (/verif/known_findings.txt, `finding: ... class=<NAME>`):
+\* bin/check exports KNOWN_<NAME>=1 for every such line of the property it runs.  A trace spec may then accept the
+\* ONE clause the finding is about, for events of exactly the recorded class, announcing each use; every other
+\* clause stays enforced on those events, and removing the line from the file turns the finding back into a
+\* violation.  (The file is read by bin/check only; nothing is ever written to it at run time.)
+KnownFinding(name) == LET n == "KNOWN_" \o name IN n \in DOMAIN IOEnv /\ IOEnv[n] = "1"
+AcceptedAsKnown(name, e) == KnownFinding(name) /\ PrintT(<<"KNOWN-FINDING-HIT", name>>)
+
 TraceAccepted ==
     LET d == TLCGet("stats").diameter IN
     IF d - 1 = Len(Rec) THEN TRUE
